@@ -1,29 +1,45 @@
 (* Property C07 - "Variant keeps the last assigned value with independent lazy copies".
    Only statements closed by `exact`, each followed by Print Assumptions, plus non-vacuity Examples.
 
+   SCOPE of every statement about histories (hypothesis `admissible` / `self_containing vs o = false`, also inside
+   `reachable`): no operation stores into a payload a Variant that contains that payload (VariantSpec.self_containing:
+   `v.toList().front() = v`, `v.toList().append(v)`, `f = cv.toList()` with f two levels below v or an unshared list
+   item of v).  On such an operation the code builds a reference cycle (open finding), while the model's mstep stays
+   value-semantic (it re-navigates, sees the extra reference and clones): the model is NOT the code there, so nothing
+   is claimed there.  ex_admissible / ex_self_containing show both sides of the hypothesis are inhabited.
+
    Clause of the property                                   theorem(s)
    ---------------------------------------------------------------------------------------------
-   lazy-copy representation is sound, for ALL histories     histories_never_fail_and_keep_invariant
+   lazy-copy representation is sound, for all admissible    histories_never_fail_and_keep_invariant
+   histories
      ref = number of handles (variables + handles nested    refcount_counts_every_handle
        in live payloads)
      no handle to a released block                          no_handle_to_released_block
      a payload written in place has no other referrer       in_place_write_only_when_unshared
      every payload is released when the variables die       all_payloads_freed_at_end
    "reports the type and value it was last given"           variant_refines_values, step_refines_values,
-                                                            reports_last_assigned_value, accessors_report_value
+                                                            reports_last_assigned_value (scalar, string, container built
+                                                            from variables, Variant / String / container taken from any
+                                                            node of any variable, clear), accessors_report_value
    "copies are independent: mutable accessor + mutation,    copies_independent (model), spec_frame (value model)
      or reassigning, never changes any other Variant"
-   "compares equal to every copy of itself"                 variant_equal_to_copy, equality_is_spec_equality,
-                                                            equality_reflexive
-   "conversions follow the documented coercions"            accessors_report_value (pure functions = Spec's),
-                                                            null_coercions, integral_conversion_preserves_value,
+   "compares equal to every copy of itself"                 variant_equal_to_copy (whole variables, == of the model),
+                                                            assigned_copy_equals_source (any two nodes),
+                                                            equality_is_spec_equality, equality_reflexive
+   "conversions follow the documented coercions"            null_coercions, integral_conversion_preserves_value,
                                                             integral_conversion_wraps, int_to_double_exact, int64_to_double_exact,
                                                             int_double_int, decimal_string_roundtrip,
                                                             int_equals_its_decimal_string
+   What the coercion clause rests on: the model's observers m_type / m_to_* are DEFINED as the Spec's functions applied to
+   what the code's switch(data->type) reads (VariantModel.shallow), and meq calls the Spec's eq_scalar_lhs on it; so
+   accessors_report_value and the scalar half of equality_is_spec_equality only say "the observers read nothing but the
+   type tag, the inline scalar or the String payload".  That the Spec's to_* functions are what the C++ casts and
+   String::to* do is carried by the correspondence run (every alternative against every other), not by a theorem.
    The quantifier "all alternative types, nested containers": values are arbitrary trees (VariantSpec.value),
    histories are arbitrary lists of VariantSpec.op with arbitrary paths; doubles are the exact dyadic
-   subset (no NaN/inf/-0).  Not proved (validated by the correspondence run only): that the Spec's
-   strtod/%f/int64->double reference functions are glibc's; string->bool table. *)
+   subset (NaN is excluded by the property; infinities and -0 are outside the Coq model and covered by a separate
+   correspondence stream with a hand-written oracle).  Not proved (validated by the correspondence run only): that the
+   Spec's strtod/%f/int64->double reference functions are glibc's; string->bool table. *)
 From Coq Require Import ZArith List Bool.
 From Common Require Import Words ListAux.
 From Variant Require Import VariantSpec VariantModel VariantProofs VariantSpecProofs VariantHeap VariantRefine
@@ -32,6 +48,7 @@ Import ListNotations.
 
 (* ---- (1) heap invariant ---- *)
 Theorem histories_never_fail_and_keep_invariant : forall k l,
+  admissible (spec_init k) l = true ->
   exists s, mrun (init k) l = Some s /\ Inv (hp s) (vars s).
 Proof. exact VariantMain.histories_never_fail_and_keep_invariant. Qed.
 Print Assumptions histories_never_fail_and_keep_invariant.
@@ -52,25 +69,27 @@ Proof. exact exclusive_unique. Qed.
 Print Assumptions in_place_write_only_when_unshared.
 
 Theorem all_payloads_freed_at_end : forall k l,
+  admissible (spec_init k) l = true ->
   exists s H', mrun (init k) l = Some s /\ destroy_all s = Some H' /\ live_blocks H' = O.
 Proof. exact VariantMain.all_payloads_freed_at_end. Qed.
 Print Assumptions all_payloads_freed_at_end.
 
 (* ---- (2) refinement to the value model ---- *)
 Theorem variant_refines_values : forall k l,
+  admissible (spec_init k) l = true ->
   exists s, mrun (init k) l = Some s /\ abs_vars s = map Some (spec_run (spec_init k) l).
 Proof. exact VariantMain.variant_refines_values. Qed.
 Print Assumptions variant_refines_values.
 
 Theorem step_refines_values : forall s vs o,
-  reachable s -> abs_vars s = map Some vs ->
+  reachable s -> abs_vars s = map Some vs -> self_containing vs o = false ->
   exists s', mstep s o = Some (s', snd (spec_step vs o)) /\ reachable s' /\
              abs_vars s' = map Some (fst (spec_step vs o)).
 Proof. exact VariantMain.step_refines_values. Qed.
 Print Assumptions step_refines_values.
 
 Theorem copies_independent : forall s vs o j,
-  reachable s -> abs_vars s = map Some vs -> ~ In j (touched o) ->
+  reachable s -> abs_vars s = map Some vs -> self_containing vs o = false -> ~ In j (touched o) ->
   exists s' out, mstep s o = Some (s', out) /\
     abs_top (hp s') (geth (vars s') j) = abs_top (hp s) (geth (vars s) j).
 Proof. exact VariantMain.copies_independent. Qed.
@@ -81,7 +100,7 @@ Proof. exact VariantSpecProofs.spec_frame. Qed.
 Print Assumptions spec_frame.
 
 Theorem reports_last_assigned_value : forall s vs o i p x,
-  reachable s -> abs_vars s = map Some vs -> assigned_value o = Some (i, p, x) ->
+  reachable s -> abs_vars s = map Some vs -> self_containing vs o = false -> assigned_value vs o = Some (i, p, x) ->
   exists s' out, mstep s o = Some (s', out) /\
     (out = Done -> exists v, abs_top (hp s') (geth (vars s') i) = Some v /\ vread p v = Some x).
 Proof. exact VariantMain.reports_last_assigned_value. Qed.
@@ -116,6 +135,16 @@ Theorem variant_equal_to_copy : forall s vs i j o,
        abs_top (hp s') (geth (vars s') i) = abs_top (hp s) (geth (vars s) j)).
 Proof. exact VariantMain.variant_equal_to_copy. Qed.
 Print Assumptions variant_equal_to_copy.
+
+Theorem assigned_copy_equals_source : forall s vs i p j sp,
+  reachable s -> abs_vars s = map Some vs -> self_containing vs (OAssign i p j sp) = false ->
+  exists s' out, mstep s (OAssign i p j sp) = Some (s', out) /\
+    (out = Done -> exists x v,
+       vread sp (getv vs j) = Some x /\ abs_top (hp s') (geth (vars s') i) = Some v /\ vread p v = Some x /\
+       veq x x = Some true /\
+       (i <> j -> abs_top (hp s') (geth (vars s') j) = abs_top (hp s) (geth (vars s) j))).
+Proof. exact VariantMain.assigned_copy_equals_source. Qed.
+Print Assumptions assigned_copy_equals_source.
 
 (* ---- (4) coercions ---- *)
 Theorem null_coercions :
@@ -211,14 +240,36 @@ Proof. vm_compute. reflexivity. Qed.
 
 Example ex_reachable : exists s, reachable s /\ (exists b, rcof (hp s) b = 4%nat) /\ held (hp s) (vars s) (HB 0).
 Proof.
-  eexists. split; [exists 3%nat, ex_l0; vm_compute; reflexivity|]. split.
+  eexists. split; [exists 3%nat, ex_l0; split; vm_compute; reflexivity|]. split.
   - exists 1%nat. vm_compute. reflexivity.
   - right. exists 1%nat. eexists. split; [vm_compute; reflexivity|]. split; [discriminate|]. cbn. auto.
 Qed.
 
-Example ex_assigned : assigned_value (OSetScalar 1 [(KList, ByIdx 0)] (SInt 7)) = Some (1%nat, [(KList, ByIdx 0)], VS (SInt 7)) /\
+Example ex_assigned : assigned_value (spec_run (spec_init 3) ex_l0) (OSetScalar 1 [(KList, ByIdx 0)] (SInt 7)) = Some (1%nat, [(KList, ByIdx 0)], VS (SInt 7)) /\
   snd (spec_step (spec_run (spec_init 3) ex_l0) (OSetScalar 1 [(KList, ByIdx 0)] (SInt 7))) = Done.
 Proof. split; vm_compute; reflexivity. Qed.
+
+(* the hypothesis of the history theorems: the example history (with the copy-on-write step and the two assignments from
+   a reference into the assigned Variant's own payload) is admissible ... *)
+Example ex_admissible : admissible (spec_init 3) (ex_l0 ++ [ex_cow; ex_str_from_own; ex_node_from_own]) = true.
+Proof. vm_compute. reflexivity. Qed.
+
+(* ... and operations outside it exist: `v1.toList().front() = v1`, and `f = cv0.toMap()` with f two levels below v0 *)
+Example ex_self_containing :
+  self_containing (spec_run (spec_init 3) ex_l0) (OAssign 1 [(KList, ByIdx 0)] 1 []) = true /\
+  self_containing (spec_run (spec_init 3) ex_l0) (OAssignNodeFrom 0 [(KMap, ByKey [107%Z]); (KList, ByIdx 0)] 0 [] KMap) = true /\
+  self_containing (spec_run (spec_init 3) ex_l0) (OAssignNodeFrom 0 [(KMap, ByKey [107%Z])] 0 [] KMap) = false.
+Proof. repeat split; vm_compute; reflexivity. Qed.
+
+(* `v0 = v0.toMap().find("k")->toList().front().toString()` and `v1 = cv1.toList().front()...`: the argument lives inside
+   the assigned Variant; value, and heap: the shared string and list blocks keep their other holders, all blocks of the old map are released, one new string block *)
+Example ex_from_own_payload :
+  assigned_value (spec_run (spec_init 3) ex_l0) ex_str_from_own = Some (0%nat, [], VStr [97; 98]%Z) /\
+  option_map (fun s => (abs_top (hp s) (geth (vars s) 0), map rc (hp s)))
+             (mrun (init 3) (ex_l0 ++ [ex_str_from_own])) = Some (Some (VStr [97; 98]%Z), [2; 2; 0; 0; 0; 0; 1]%nat) /\
+  option_map (fun s => abs_top (hp s) (geth (vars s) 0)) (mrun (init 3) (ex_l0 ++ [ex_node_from_own])) =
+    Some (Some (VNode KList [] [VStr [97; 98]%Z; VStr [97; 98]%Z])).
+Proof. repeat split; vm_compute; reflexivity. Qed.
 
 Example ex_coercions :
   to_int (VS (SUInt 4294967295)) = Some (-1)%Z /\ to_int (VStr [49; 50; 97]%Z) = Some 12%Z /\
